@@ -33,3 +33,4 @@ Proof. reflexivity. Qed.
 Print Assumptions c01_exception_identity_partial.
 Print Assumptions c01_invoked_once_without_retry_partial.
 Print Assumptions c01_invocations_consecutive_partial.
+Print Assumptions c01_identity_layers_partial.
